@@ -35,7 +35,19 @@ var FarmKinds = []string{
 	"PROPOSAL_CREATE", "PROPOSAL_FUND", "PROPOSAL_CANCEL", "PROPOSAL_WITHDRAW_FUNDS",
 	"ETH_LOCK", "ETH_REDEEM", "ERC20_LOCK", "ERC20_REDEEM", "ETH_REPORT_FINALITY_MINT",
 	"OLVM",
+	// the bid application: one conversation per kind is left open by the prefix (see FarmBidAssets)
+	"BID_CREATE", "BID_CONTER_OFFER", "BID_CANCEL", "BID_BIDDER_DECISION", "BID_OWNER_DECISION", "BID_EXPIRE",
 }
+
+// FarmBidAssets maps each bid kind that needs an open conversation to the domain (owned by A, bidder B) the
+// prefix opens it on: one conversation per kind, so that really executing one subject leaves the others
+// applicable. All carry an active bid offer of B except BID_BIDDER_DECISION's, which carries A's counter offer.
+var FarmBidAssets = map[string]string{
+	"BID_CONTER_OFFER": "bidco.ol", "BID_CANCEL": "bidcancel.ol", "BID_BIDDER_DECISION": "bidbd.ol",
+	"BID_OWNER_DECISION": "bidod.ol", "BID_EXPIRE": "bidexp.ol",
+}
+
+var farmBidOrder = []string{"BID_CONTER_OFFER", "BID_CANCEL", "BID_BIDDER_DECISION", "BID_OWNER_DECISION", "BID_EXPIRE"}
 
 // FarmOpts are the (replayable) choices of a farm: which accounts play which role.
 type FarmOpts struct {
@@ -75,6 +87,8 @@ type Farm struct {
 	Contract   map[string]ethcmn.Address        // store, revert, loop: contracts deployed in the prefix
 	P          map[string]governance.ProposalID // fund, cancel, vote, withdraw, finalize
 	LockRaw    []byte                           // ongoing ETH lock tracker (report-finality subject)
+	Bid        map[string]string                // bid kind -> id of the conversation the prefix left open for it
+	BidDL      int64                            // deadline of the prefix's conversations (unix seconds, far away)
 	Log        []string                         // prefix execution log: "h=.. KIND code log"
 	PrefixFail []string                         // prefix transactions that did not succeed
 	n          int
@@ -94,7 +108,7 @@ func PrepareFarmParams(p sim.Params, o FarmOpts) sim.Params {
 // BuildFarm runs the scripted prefix on every replica of w (w must be freshly initialised).
 func BuildFarm(w *World, o FarmOpts) *Farm {
 	u := w.G.U
-	f := &Farm{W: w, O: o, P: map[string]governance.ProposalID{}}
+	f := &Farm{W: w, O: o, P: map[string]governance.ProposalID{}, Bid: map[string]string{}}
 	f.A = u.Users[o.A%len(u.Users)]
 	f.B = u.Users[o.B%len(u.Users)]
 	if f.B == f.A {
@@ -164,7 +178,21 @@ func BuildFarm(w *World, o FarmOpts) *Farm {
 		txgen.Unstake(v[0].Key.Addr, v[0].Stake.Addr, txgen.Amt("OLT", big.NewInt(10)), fee, memo(), v[0].Stake, v[0].Key),
 		mkProp("fund"), mkProp("cancel"), mkProp("vote"), mkProp("withdraw"), mkProp("finalize"), mkProp("expire"),
 		txgen.EthLock(A, A.Addr, f.LockRaw, fee, memo()),
+		// one domain per bid kind that needs an open conversation
+		txgen.DomainCreate(A, A.Addr, A.Addr, FarmBidAssets["BID_CONTER_OFFER"], "http://b.c", txgen.Amt("OLT", olt(1001)), fee, memo()),
+		txgen.DomainCreate(A, A.Addr, A.Addr, FarmBidAssets["BID_CANCEL"], "http://b.x", txgen.Amt("OLT", olt(1001)), fee, memo()),
+		txgen.DomainCreate(A, A.Addr, A.Addr, FarmBidAssets["BID_BIDDER_DECISION"], "http://b.b", txgen.Amt("OLT", olt(1001)), fee, memo()),
+		txgen.DomainCreate(A, A.Addr, A.Addr, FarmBidAssets["BID_OWNER_DECISION"], "http://b.o", txgen.Amt("OLT", olt(1001)), fee, memo()),
+		txgen.DomainCreate(A, A.Addr, A.Addr, FarmBidAssets["BID_EXPIRE"], "http://b.e", txgen.Amt("OLT", olt(1001)), fee, memo()),
 	)
+	// B opens a conversation on each of them (ids are derived by the application from owner, name, bidder and height)
+	f.BidDL = w.C.Time.Unix() + 40000000
+	var bids []txgen.Tx
+	for i, k := range farmBidOrder {
+		name := FarmBidAssets[k]
+		f.Bid[k] = txgen.BidConvID(A.Addr, name, B.Addr, w.C.Height+1)
+		bids = append(bids, txgen.BidCreate(B, "", A.Addr, name, txgen.BidAssetOns, B.Addr, txgen.Amt("OLT", olt(int64(10+i))), f.BidDL, fee, memo()))
+	}
 	run(
 		txgen.Allegation(v[1].Key, "reqR", v[1].Key.Addr, v[4].Key.Addr, 1, "proof", fee, memo()),
 		txgen.Allegation(v[1].Key, "reqV", v[1].Key.Addr, v[3].Key.Addr, 1, "proof", fee, memo()),
@@ -173,11 +201,14 @@ func BuildFarm(w *World, o FarmOpts) *Farm {
 		txgen.ProposalFund(B, f.P["expire"], B.Addr, txgen.Amt("OLT", goal), fee, memo()), // voting deadline = 3 + 6
 		txgen.ProposalCancel(A, f.P["withdraw"], A.Addr, "changed my mind", fee, memo()),
 		txgen.Undelegate(A, A.Addr, txgen.Amt("OLT", olt(40)), fee, memo()),
+		bids[0], bids[1], bids[2], bids[3], bids[4],
 	)
 	run(
 		txgen.AllegationVote(v[0].Key, "reqR", v[0].Key.Addr, 1, fee, memo()),
 		txgen.AllegationVote(v[2].Key, "reqR", v[2].Key.Addr, 1, fee, memo()),
 		txgen.AllegationVote(v[3].Key, "reqR", v[3].Key.Addr, 1, fee, memo()),
+		// A answers one of B's offers with a counter offer (the subject of BID_BIDDER_DECISION)
+		txgen.BidCounterOffer(A, f.Bid["BID_BIDDER_DECISION"], A.Addr, txgen.Amt("OLT", olt(50)), fee, memo()),
 	)
 	run()
 	run()
@@ -299,6 +330,23 @@ func (f *Farm) Make(kind string) (txgen.Tx, error) {
 		return txgen.Tx{}, fmt.Errorf("no witness")
 	case "OLVM":
 		return f.MakeOLVM(0, 12345+k), nil
+	case "BID_CREATE":
+		// a new conversation of B on an asset of its own (the example asset type: every name is available), so that
+		// several subjects of one world do not collide on "an active conversation exists already"
+		return txgen.BidCreate(B, "", A.Addr, fmt.Sprintf("item-%d-%d", f.O.Var, f.n), txgen.BidAssetExample, B.Addr, txgen.Amt("OLT", olt(2+k)), f.BidDL, fee, memo), nil
+	case "BID_CONTER_OFFER":
+		return txgen.BidCounterOffer(A, f.Bid[kind], A.Addr, txgen.Amt("OLT", olt(30+k)), fee, memo), nil
+	case "BID_CANCEL":
+		return txgen.BidCancel(B, f.Bid[kind], B.Addr, fee, memo), nil
+	case "BID_BIDDER_DECISION":
+		// accept (B pays the counter offer and receives the domain) or reject
+		return txgen.BidBidderDecision(B, f.Bid[kind], B.Addr, []int{txgen.BidAccept, txgen.BidAccept, txgen.BidReject}[k%3], fee, memo), nil
+	case "BID_OWNER_DECISION":
+		// accept (A receives the locked offer, B the domain) or reject (the offer returns to B)
+		return txgen.BidOwnerDecision(A, f.Bid[kind], A.Addr, []int{txgen.BidAccept, txgen.BidAccept, txgen.BidReject}[k%3], fee, memo), nil
+	case "BID_EXPIRE":
+		// the block hook's own transaction, routed from outside: the account named as validator signs and pays
+		return txgen.BidExpire(A, f.Bid[kind], A.Addr, fee, memo), nil
 	}
 	return txgen.Tx{}, fmt.Errorf("unknown kind %s", kind)
 }
